@@ -105,10 +105,14 @@ def treeFor (routes : List RouteReg) (method ver : Bytes) : Rivaas.Radix.Tree :=
       else go t (i + 1) rest
   go Rivaas.Radix.Tree.empty 0 routes
 
-/-- the fact `tree.getRoute(path, c)` agrees with the routing model: a predicted hit is a hit on a route with that
+/-- the facts `tree.getRoute(path, c)` and `len(getAllowedMethodsForPath(path)) > 0` agree with the routing model: a predicted hit is a hit on a route with that
     pattern; when the request reaches the tree traversal (no earlier lookup answered) a predicted miss is a miss -/
 def treeFactAgrees (f : Facts) (method : Bytes) (routes : List RouteReg) : Bool :=
   let leaf := (Rivaas.Radix.getRoute (fun _ v => isDigits v) (treeFor routes method []) f.path Rivaas.Radix.Ctx.fresh).1
+  -- getAllowedMethodsForPath: some standard method's main tree has a route for the path
+  let allowed := ["GET", "POST", "PUT", "PATCH", "DELETE", "HEAD", "OPTIONS"].any fun m =>
+    (Rivaas.Radix.getRoute (fun _ v => isDigits v) (treeFor routes m.toList []) f.path Rivaas.Radix.Ctx.fresh).1.isSome
+  (f.allowed == allowed) &&
   match f.treeRoute with
   | some rt => (leaf.map (·.path)) == some rt.pattern
   | none => !(f.tree && f.q1.isNone && f.q2.isNone && f.q3.isNone) || leaf.isNone
